@@ -4,9 +4,13 @@ Implementation side: the real `recoco.Scheduler(startInThread=False, threaded_se
 `BaseTask`/`Timer`/`Again`/`Sleep`/`Select`/`Recv`/`Send`/`Exit`; `time.time` is the virtual clock and
 `SelectHub._select_func` is the virtual select of Model/Recoco.lean (`vselect`).  No threads are ever started.
 Times in cases are integers in units of 1/8 s (exact in binary64)."""
-import sys, io, time, threading, itertools, contextlib, select as _rsel, socket, os
+import sys, io, re, json, time, threading, itertools, contextlib, select as _rsel, socket, os
 import common, poxenv
 from common import Check
+
+# Which code the model mirrors.  Flip an entry to True in the same change that commits the corresponding repair to the
+# repository (fixes/D25_recoco_send_retry.diff, fixes/D60_recoco_again_empty_subtask.diff); the theorems hold for both settings.
+REPAIRED = {"fix_send": False, "fix_empty_sub": False}
 
 UNIT = 8.0
 T0 = 8000                       # 1000.0 s
@@ -129,7 +133,7 @@ class Run(object):
             tid2 = self.ntids; self.ntids += 1
             g = self.body(tid2, self.case["progs"][y[1]])
             self.tid_of[id(g)] = tid2; self.keep.append(g)
-            self.subs.append([tid2, y[1], tid])
+            self.subs.append([tid2, y[1], tid, self.cur_idx])
             return rc.Again(g), None
         if tag == "cancel":
             self.timers[y[1]].cancel()
@@ -141,6 +145,7 @@ class Run(object):
         while True:
             if self.running is not None: self.overlap += 1
             self.running = tid
+            self.cur_idx = i
             if isinstance(wake, tuple):                             # Send: last registration + timeout
                 wake = None if wake[1] is None else [wake[2].last_reg + wake[1], True]
             self.trace.append(["s", tid, i, self.now(), recv, wake])
@@ -210,10 +215,13 @@ class Run(object):
             if id(t) in self.tid_of: return self.tid_of[id(t)]
             g = getattr(getattr(t, "parent", None), "subtask_func", None)
             return self.tid_of.get(id(g), -1)
+        text = out.getvalue()
+        excs = sorted(set(m.split(".")[-1] for m in re.findall(r"^([A-Za-z_][\w.]*)(?::|$)", text, re.M)
+                          if m not in ("Task", "Traceback")))
         obs = {"trace": self.trace, "quit": bool(quit_) and run_exc is None, "crashed": run_exc is not None, "cycles": st["n"],
                "now": self.now(), "ready": [tid(t) for t in sched._ready], "incoming": [tid(e[0]) for e in list(hub._incoming.queue)],
                "hub": [tid(t) for t in hub._tasks], "subs": self.subs, "overlap": self.overlap, "run_exc": run_exc,
-               "descheduled": out.getvalue().count("de-scheduled")}
+               "descheduled": text.count("de-scheduled"), "excs": excs}
         # release the pinger pipe now (its __del__ would otherwise close recycled descriptor numbers later)
         p = hub._pinger
         for a in ("_r", "_w"):
@@ -227,8 +235,8 @@ class Run(object):
 # --------------------------------------------------------------------------------------------------------------- cases
 
 def mk(progs, tasks, timers=(), r=(), w=(), x=(), send=(), recv=(), t0=T0, budget=400, label=""):
-    return {"t0": t0, "budget": budget, "progs": [list(p) for p in progs], "tasks": list(tasks), "timers": [list(t) for t in timers],
-            "r": list(r), "w": list(w), "x": list(x), "send": list(send), "recv": list(recv), "label": label}
+    return {"t0": t0, "budget": budget, "progs": progs, "tasks": tasks, "timers": timers, "r": r, "w": w, "x": x, "send": send,
+            "recv": recv, "label": label}
 
 NUM0, NUM4, BLOCK, SLEEP4, SLEEP0, EXIT = ["num", 0], ["num", 4], ["block"], ["sleep", 4], ["sleep", 0], ["exit"]
 SLEEPN = ["sleep", None]
@@ -236,15 +244,15 @@ RAISE = ["raise", 1]
 SEL_T = ["select", [], [], [], 4]                 # pure timeout
 SEL_R0 = ["select", [0], [], [], 12]              # fd 0 (readable from T0+6) with timeout
 SEL_R1 = ["select", [1], None, None, None]        # fd 1: never ready, no timeout -> blocks for ever
+SUBS = [[["num", 3]], [SLEEP4], [], [["raise", 2]], [SLEEP4, ["num", 5]]]
 
 
 def sub_table(base):
     """programs base.. followed by the fixed sub-functions used by the small-scope alphabets"""
-    return list(base) + [[["num", 3]], [SLEEP4], [], [["raise", 2]], [SLEEP4, ["num", 5]]]
+    return list(base) + SUBS
 
 
-
-def rand_yield(rng, nsub_from, nprogs, ntimers, nfds, in_sub):
+def rand_yield(rng, nsub_from, nprogs, ntimers, nfds, t0):
     """one yield; `again` only calls programs with index >= nsub_from (a DAG, so every run terminates)"""
     t = lambda hi=24: rng.choice([0, 1, 2, 4, 4, 8, 12, 16, 17, rng.randint(0, hi)])
     opt = lambda: None if rng.random() < 0.3 else t()
@@ -254,7 +262,7 @@ def rand_yield(rng, nsub_from, nprogs, ntimers, nfds, in_sub):
     if r < 0.30: return ["num", t()]
     if r < 0.40: return ["sleep", t()]
     if r < 0.42: return ["sleep", None]
-    if r < 0.46: return ["sleepabs", rng.choice([0, T0 - 8, T0, T0 + 4, T0 + 16, T0 + t(40)])]
+    if r < 0.46: return ["sleepabs", max(0, t0 + rng.choice([-T0, -8, 0, 4, 16, t(40)]))]
     if r < 0.49: return ["block"]
     if r < 0.66: return ["select", fl(), fl(), fl(), opt()]
     if r < 0.71: return ["recv", rng.randrange(nfds), opt()]
@@ -272,38 +280,57 @@ def rand_case(rng, ntasks=None, maxlen=12):
     nprogs = ntop + nsub
     ntimers = rng.choice([0, 0, 1, 1, 2])
     nfds = 4
+    t0 = T0 if rng.random() < 0.9 else 0
     progs = []
     for k in range(nprogs):
         n = rng.choice([0, 1, 2, 3, rng.randint(0, maxlen), rng.randint(0, maxlen)])
         lo = ntop if k < ntop else k + 1
-        progs.append([rand_yield(rng, lo, nprogs, ntimers, nfds, k >= ntop) for _ in range(n)])
-    t0 = T0 if rng.random() < 0.9 else 0
+        progs.append([rand_yield(rng, lo, nprogs, ntimers, nfds, t0) for _ in range(n)])
     tab = lambda: [None if rng.random() < 0.35 else t0 + rng.choice([0, 2, 4, 6, 12, 20, 40]) for _ in range(nfds)]
     timers = [[rng.choice([0, 2, 5, 9, 18]), rng.random() < 0.6, rng.random() < 0.8, rng.choice([None, 0, 1, 2, 3, 3])] for _ in range(ntimers)]
     scr = lambda: [rng.choice([None, 0, 1, 2, 3, 8]) for _ in range(rng.choice([0, 0, 2, 5]))]
-    c = mk(progs, list(range(ntop)), timers, tab(), tab(), tab(), scr(), scr(), t0, rng.choice([40, 400, 400]), "random")
-    if t0 == 0:
-        for p in c["progs"]:
-            for y in p:
-                if y[0] == "sleepabs": y[1] = max(0, y[1] - T0)
-    return c
+    return mk(progs, list(range(ntop)), timers, tab(), tab(), tab(), scr(), scr(), t0, rng.choice([40, 400, 400]), "random")
 
 
 ALPHA = [NUM0, NUM4, SLEEP4, SLEEP0, SEL_T, SEL_R0, SEL_R1, BLOCK, SLEEPN, RAISE, EXIT, ["recv", 0, None], ["send", 2, 6, None, 4],
          ["cancel", 0], ["sleepabs", T0 + 4]]
-ALPHA += [["again", -k, c] for k in (1, 2, 3, 4, 5) for c in (True, False)]          # -k: k-th fixed sub-function (see sub_table)
+ALPHA += [["again", -k, c] for k in (1, 2, 3, 4, 5) for c in (True, False)]          # -k: k-th fixed sub-function (see SUBS)
+CORE = [NUM0, NUM4, SLEEP4, SEL_T, SEL_R0, BLOCK, RAISE, ["again", -1, True], ["again", -2, True], ["again", -4, False]]
+FD_R, FD_W, FD_X = [T0 + 6, None, None], [None, None, T0 + 2], [None, None, None]
+ONE_TIMER = [[5, True, True, 2]]
 
 
-def scope(alpha, ntasks, maxlen, timers=(), **kw):
+def scope(alpha, ntasks, maxlen, timers=ONE_TIMER, send=(4, 0), label="scope"):
     """every assignment of programs of length <= maxlen over `alpha` to `ntasks` tasks (start order matters)"""
     plist = [list(p) for n in range(maxlen + 1) for p in itertools.product(alpha, repeat=n)]
+    send = list(send)
     for combo in itertools.product(range(len(plist)), repeat=ntasks):
         used = sorted(set(combo))
-        base = [plist[i] for i in used]
-        nb = len(base)
-        progs = sub_table([[(["again", nb - 1 - y[1], y[2]] if y[0] == "again" and y[1] < 0 else y) for y in p] for p in base])
-        yield mk(progs, [used.index(i) for i in combo], timers, kw.get("r", [T0 + 6, None, None]), kw.get("w", [None, None, T0 + 2]),
-                 kw.get("x", [None, None, None]), kw.get("send", [4, 0]), kw.get("recv", []), T0, 120, "scope")
+        nb = len(used)
+        progs = [[(["again", nb - 1 - y[1], y[2]] if y[0] == "again" and y[1] < 0 else y) for y in plist[i]] for i in used] + SUBS
+        yield mk(progs, [used.index(i) for i in combo], timers, FD_R, FD_W, FD_X, send, [], T0, 120, label)
+
+
+def hand_cases():
+    P = sub_table([[NUM0, ["num", 12], ["sleep", 16], NUM0], [SEL_T, NUM0, ["num", 24]]])
+    yield mk(P, [0, 1], [[18, True, True, 2]], label="design spike D.5")
+    K = 6
+    P = sub_table([[NUM0, ["num", 12], ["sleep", 16], NUM0], [SEL_T, NUM0, ["num", 24]],
+                   [["again", K + 0, True], ["again", K + 3, True], ["again", K + 1, True], ["again", K + 4, True], NUM0],
+                   [["again", K + 3, False], NUM0], [SEL_R0, SEL_R1],
+                   [["recv", 0, None], ["send", 0, 10, None, 4], ["send", 0, 10, 4, 4], NUM0]])
+    yield mk(P, [2], label="sub-task results")
+    yield mk(P, [3, 0], label="uncaught sub-task exception")
+    yield mk(P, [4, 4, 0], r=[T0 + 6, None], label="two tasks select on one fd")
+    yield mk(P, [5, 1], r=[T0 + 6], w=[T0 + 2], send=[2, 2, 2, 2, 2, 1, 1, 1], label="recv + partial sends")
+    yield mk(P, [5, 0], r=[T0 + 6], w=[T0 + 2], send=[3, 0], label="D25: send writes 0 bytes")
+    yield mk(P, [5, 0], r=[T0 + 6], w=[T0 + 2], send=[3, None], label="D25: send raises socket.error")
+    yield mk([[["again", 1, True], NUM0], []], [0], label="D60: empty sub-task")
+    yield mk([[["again", 1, False], NUM0], []], [0, 0], label="D60: empty sub-task, uncaught")
+    yield mk([[NUM0, EXIT, NUM0], [NUM0, NUM0, NUM0]], [1, 0, 1], label="exit")
+    yield mk([[SLEEP4, ["cancel", 0], SLEEP4, ["cancel", 1]], [["sleep", 40]]], [0, 1], [[3, True, True, None], [9, False, False, 0]], label="cancel")
+    yield mk([[["sleep", 0], ["sleepabs", 0], ["sleepabs", 5], ["num", 3]]], [0, 0], t0=0, label="clock at 0")
+    yield mk([[NUM0] * 6], [0, 0], [[0, True, False, None]], budget=40, label="budget stops a timer that never ends")
 
 
 class C06(Check):
@@ -312,11 +339,38 @@ class C06(Check):
     prop_module = "PoxModel.Properties.C06"
     lean_targets = ["drv_c06"]
     driver = "drv_c06"
-    theorems = []
-    anchors = [("pox/lib/recoco/recoco.py", 94, 111), ("pox/lib/recoco/recoco.py", 250, 352), ("pox/lib/recoco/recoco.py", 431, 461),
-               ("pox/lib/recoco/recoco.py", 545, 598), ("pox/lib/recoco/recoco.py", 615, 735), ("pox/lib/recoco/recoco.py", 806, 830),
-               ("pox/lib/recoco/recoco.py", 840, 955), ("pox/lib/recoco/recoco.py", 1041, 1081)]
-    coverage_cases = 400
+    theorems = ["Pox.C06.single_place", "Pox.C06.caller_blocked", "Pox.C06.no_overlap", "Pox.C06.program_order", "Pox.C06.step_once",
+                "Pox.C06.not_early", "Pox.C06.wake_is_registered", "Pox.C06.isolation", "Pox.C06.again_return", "Pox.C06.delivery",
+                "Pox.C06.again_empty_defect", "Pox.C06.send_zero_defect"]
+    # function bodies only (a `def` line executes at import time, not during a run)
+    anchors = [("pox/lib/recoco/recoco.py", a, b) for a, b in [(95, 111), (272, 279), (282, 282), (285, 295), (302, 352), (439, 439), (449, 450), (453, 460), (550, 561), (576, 579), (583, 593), (596, 598), (619, 624), (628, 658), (661, 664), (669, 701), (713, 714), (717, 733), (813, 820), (826, 829), (847, 927), (931, 936), (942, 942), (949, 950), (954, 955), (1044, 1061), (1064, 1068), (1071, 1071), (1074, 1081)]]
+    coverage_cases = 2500
+    trusted_base = ["model Model/Recoco.lean hand-written from recoco.py (Scheduler.cycle/run, BaseTask.execute, SelectHub._select, "
+                    "Sleep/Select/Recv/Send/Exit/Again/AgainTask/Timer); tied to the code by this correspondence run only",
+                    "harness: virtual clock, virtual select (same definition as the model's vselect), scripted sockets, instrumented task bodies",
+                    "the observation fields Task.wake / St.trace of the model are compared with the harness's own bookkeeping on every case"]
+    assumptions = ["single scheduler thread with the inline select hub (threaded_selecthub=False); the threaded hub and CallBlocking threads are C07's",
+                   "select honours its timeout and reports every ready descriptor (virtual select: level-triggered scripted readiness)",
+                   "task programs are over the yield vocabulary of the model; tasks do not call scheduler methods themselves; no task yields None",
+                   "times are multiples of 1/8 s, so float comparisons in the code agree with the model's integer comparisons",
+                   "fewer than 1024 pings accumulate between two idle() calls (pongAll reads at most 1024 bytes; the model counts them)"]
+    design_ref = "DESIGN.md §5 C06"
+    technique = ("Lean 4 proof (three invariants over all reachable states of a small-step model of the scheduler: placement, program order, "
+                 "wake-time accounting; one-cycle theorems for isolation and sub-task return) + differential correspondence of the compiled "
+                 "model against the real Scheduler.run() under a virtual clock/select + independent property oracle on the real code's trace")
+    level_text = ("Theorems single_place/caller_blocked/no_overlap/program_order/step_once/not_early/wake_is_registered hold for every program "
+                  "table, task set, timer set, readiness script and number of loop iterations (unbounded); isolation/again_return/delivery are "
+                  "exact one-cycle statements for every state.  The model is hand-written; each run re-checks it against the real scheduler on "
+                  "exhaustive small scopes plus random programs, comparing the full trace (task, step, virtual time, value/exception received, "
+                  "wake time), timer firings, cycle count and final queues.")
+    level_note = ("Proved about the model, tested for the code: the tie is the differential run.  Out of scope here: the threaded select hub, real "
+                  "file descriptors/epoll, CallBlocking worker threads, locks (C07), the priority<1 lottery.  Not proved (only checked by the oracle "
+                  "on the real code): fairness bound, timer once/recurring-until-cancelled, 'a dead task never runs again' as a multi-step theorem, "
+                  "absence of scheduler-internal assertion failures (the model keeps them as a `crashed` flag; never observed).  Inline-mode fact "
+                  "worth knowing: the hub is polled only when the ready deque is empty, so a task that always yields 0 starves all timed waiters.")
+    rule = ("case = (program table over the yield vocabulary, task list, timers, fd readiness times, socket scripts, start time, cycle budget); "
+            "corpus = 13 hand-written scenarios + exhaustive scopes (every assignment of programs of <= L yields over an alphabet to N ordered tasks); "
+            "non-trivial = the real run contains a timed resume, a sub-task step or a timer firing")
 
     def setup(self):
         import logging
@@ -326,20 +380,246 @@ class C06(Check):
         warnings.simplefilter("ignore")
         import pox.lib.recoco.recoco as recoco
         self.rc = recoco
+        self._last = (None, None)
 
+    # -- cases
+    def corpus(self):
+        cases = list(hand_cases())
+        cases += list(scope(CORE, 2, 2))                                         # 111^2
+        cases += list(scope(ALPHA, 3, 1, label="scope3x1"))                      # 26^3
+        for alpha in ([NUM0, SLEEP4], [NUM0, ["again", -1, True]], [SEL_R0, RAISE]):
+            cases += list(scope(alpha, 3, 3, label="scope3x3"))                  # 15^3 each
+        return cases
+
+    def generate(self, rng, tier):
+        n = 2500 if tier == "quick" else 30000
+        for _ in range(n):
+            yield rand_case(rng)
+        if tier == "thorough":
+            drop = [SLEEPN, ["sleepabs", T0 + 4], ["again", -2, False], ["again", -5, False], ["again", -1, False]]
+            for c in scope([a for a in ALPHA if a not in drop], 2, 2, label="scope2x2-wide"):      # 421^2
+                yield c
+            for _ in range(2):                                                   # all 3 tasks x <=3 yields over random 3-symbol alphabets
+                alpha = rng.sample(ALPHA, 3)
+                for c in scope(alpha, 3, 3, label="scope3x3-rand"):              # 40^3 each
+                    yield c
+
+    def search_cases(self, rng, tier):
+        while True:
+            yield rand_case(rng, maxlen=rng.choice([3, 6, 12]))
+
+    # -- implementation (observables are kept as one JSON string per case: hundreds of thousands of cases are held in memory)
     def impl(self, case):
-        return Run(self.rc, case).go()
+        return {"j": json.dumps(Run(self.rc, case).go(), separators=(",", ":"))}
+
+    def _o(self, obs):
+        if self._last[0] is not obs:
+            self._last = (obs, json.loads(obs["j"]))
+        return self._last[1]
 
     KEYS = ("trace", "quit", "crashed", "cycles", "now", "ready", "incoming", "hub")
 
     def model_request(self, case):
-        return {k: v for k, v in case.items() if k != "label"}
+        r = {k: v for k, v in case.items() if k not in ("label", "_iso")}
+        r.update(REPAIRED)
+        return r
 
     def model_obs(self, case, resp):
         return resp if "error" in resp else {k: resp.get(k) for k in self.KEYS}
 
     def impl_view(self, case, obs):
-        return {k: obs[k] for k in self.KEYS}
+        o = self._o(obs)
+        return {k: o[k] for k in self.KEYS}
+
+    # -- the property itself, on the implementation's observables (independent of the model)
+    def oracle(self, case, obs):
+        o = self._o(obs)
+        return oracle(self, case, o)
+
+    def finding_key(self, case, obs, failure):
+        return failure.split(" | ")[0]
+
+    def nontrivial(self, case, obs):
+        o = self._o(obs)
+        subs = set(s[0] for s in o["subs"])
+        return any(e[0] == "f" or (e[0] == "s" and (e[5] is not None or e[1] in subs)) for e in o["trace"])
+
+    def shrink_candidates(self, case):
+        c0 = json.loads(json.dumps(case))
+        if len(c0["tasks"]) > 1:
+            for i in range(len(c0["tasks"])):
+                c = json.loads(json.dumps(c0)); del c["tasks"][i]; yield c
+        for k, p in enumerate(c0["progs"]):
+            for i in range(len(p)):
+                c = json.loads(json.dumps(c0)); del c["progs"][k][i]; yield c
+        uses_cancel = any(y[0] == "cancel" for p in c0["progs"] for y in p)
+        if c0["timers"] and not uses_cancel:
+            c = json.loads(json.dumps(c0)); c["timers"] = []; yield c
+        for key in ("send", "recv"):
+            if c0[key]:
+                c = json.loads(json.dumps(c0)); c[key] = c[key][:-1]; yield c
+
+
+TIMEOUT = ["sel", [], [], []]
+
+
+def task_table(case, o):
+    """tid -> (program, parent tid or None, parent's step index)"""
+    tab = {}
+    for tid, k in enumerate(case["tasks"]):
+        tab[tid] = (case["progs"][k], None, None)
+    for tid, k, ptid, pidx in o["subs"]:
+        tab[tid] = (case["progs"][k], ptid, pidx)
+    return tab
+
+
+def expected_exc(name):
+    return "RuntimeError" if name == "StopIteration" else name
+
+
+def oracle(chk, case, o):
+    trace = o["trace"]
+    ntop = len(case["tasks"])
+    timer_tids = range(ntop, ntop + len(case["timers"]))
+    tab = task_table(case, o)
+    steps = {}
+    for pos, e in enumerate(trace):
+        if e[0] == "s": steps.setdefault(e[1], []).append((pos, e))
+    # 0. the scheduler loop itself must survive whatever the tasks do
+    if o["crashed"]:
+        return "scheduler-died:%s | an exception escaped Scheduler.run()" % o["run_exc"]
+    if o["overlap"]:
+        return "overlap | a task step began while another was running"
+    # 1. program order, each step once
+    for tid, evs in steps.items():
+        if tid not in tab: return "unknown-task | step of a task that was never created"
+        idxs = [e[2] for _, e in evs]
+        if idxs != list(range(len(idxs))):
+            return "program-order | task %d executed steps %s" % (tid, idxs[:8])
+        if idxs and idxs[-1] > len(tab[tid][0]):
+            return "program-order | task %d ran past the end of its program" % tid
+    # 2. never early
+    for e in trace:
+        if e[0] == "s" and e[5] is not None:
+            w, hasfds = e[5]
+            if (not hasfds or e[4] == TIMEOUT) and e[3] < w:
+                return "early-wake | task %d step %d resumed at %d, wake time %d" % (e[1], e[2], e[3], w)
+    # 3. only the task's own exceptions may deschedule it
+    internal = [x for x in o["excs"] if x not in ("E", "RuntimeError", "StopIteration")]
+    pending_send = any(len(evs) and evs[-1][1][2] < len(tab[tid][0]) and tab[tid][0][evs[-1][1][2]][0] == "send" for tid, evs in steps.items())
+    if "NameError" in internal and pending_send:
+        return "send:zero-bytes:NameError | Send wrote 0 bytes: the task was killed by a NameError inside recoco"
+    if internal:
+        return "descheduled-by:%s | a task was killed by an exception it did not raise" % ",".join(internal)
+    # 4. sub-task call / return
+    def outcome(tid):
+        """None if the sub-task has not finished; else the canonical value/exception its caller must receive"""
+        prog = tab[tid][0]; evs = steps.get(tid, [])
+        if not evs: return None
+        _, last = evs[-1]; i = last[2]
+        if i > 0 and prog[i - 1][0] == "again" and not prog[i - 1][2] and last[4] is not None and last[4][0] == "exc":
+            return ["exc", expected_exc(last[4][1])]                       # uncaught exception propagates
+        if i == len(prog): return "none"
+        y = prog[i]
+        if y[0] == "raise": return ["exc", "E%d" % y[1]]
+        if y[0] == "num": return ["num", y[1]]
+        if y[0] == "block": return ["false"]
+        if y[0] == "cancel": return ["num", 0]
+        return None
+    for tid, k, ptid, pidx in o["subs"]:
+        out = outcome(tid)
+        if out is None: continue
+        last_pos = steps[tid][-1][0]
+        pe = [(p, e) for p, e in steps.get(ptid, []) if e[2] == pidx + 1]
+        ended = o["quit"] or o["cycles"] >= case["budget"]
+        if not pe:
+            if last_pos + 1 < len(trace) or not ended:
+                return "again:not-delivered | sub-task %d finished, caller %d was not resumed next" % (tid, ptid)
+            continue
+        p, e = pe[0]
+        if p != last_pos + 1:
+            return "again:not-next | caller %d did not run right after its sub-task %d finished" % (ptid, tid)
+        want = None if out == "none" else out
+        if e[4] != want:
+            if out == "none" and e[4] == ["exc", "StopIteration"] and len(tab[tid][0]) == 0:
+                return "again:empty-subtask:StopIteration | a sub-task that returns before its first yield gives its caller StopIteration"
+            return "again:wrong-result | caller %d received %s, sub-task %d produced %s" % (ptid, e[4], tid, want)
+    for tid, evs in steps.items():
+        prog = tab[tid][0]
+        for _, e in evs:
+            r = e[4]
+            if r is not None and r[0] in ("num", "false", "exc", "data"):
+                prev = prog[e[2] - 1][0] if e[2] > 0 else None
+                ok = (prev == "again") or (r[0] == "num" and prev == "send") or (r[0] == "data" and prev == "recv")
+                if not ok: return "stray-result | task %d step %d received %s after yielding %s" % (tid, e[2], r, prev)
+    # 5. timers
+    for j, (delay, recurring, selfstop, false_at) in enumerate(case["timers"]):
+        tt = ntop + j
+        fires = [(p, e) for p, e in enumerate(trace) if e[0] == "f" and e[1] == tt]
+        if [e[2] for _, e in fires] != list(range(len(fires))): return "timer:count | timer %d firing numbers %s" % (j, [e[2] for _, e in fires])
+        if not recurring and len(fires) > 1: return "timer:one-shot-twice | one-shot timer %d fired %d times" % (j, len(fires))
+        due = case["t0"] + delay
+        for n, (p, e) in enumerate(fires):
+            if e[3] < due: return "timer:early | timer %d firing %d at %d, due %d" % (j, n, e[3], due)
+            due = e[3] + delay
+            if selfstop and false_at == n and n + 1 < len(fires): return "timer:after-false | timer %d fired after its callback returned False" % j
+        cancels = [p for tid, evs in steps.items() for p, e in evs
+                   if e[2] < len(tab[tid][0]) and tab[tid][0][e[2]] == ["cancel", j] and not (e[4] is not None and e[4][0] == "exc" and e[2] > 0
+                        and tab[tid][0][e[2] - 1][0] == "again" and not tab[tid][0][e[2] - 1][2])]
+        if cancels and fires and fires[-1][0] > min(cancels): return "timer:after-cancel | timer %d fired after cancel()" % j
+    # 6. round-robin fairness of the ready deque (inline hub: nothing can overtake a task that yielded 0, except sub-task call/return)
+    for tid, evs in steps.items():
+        prog = tab[tid][0]
+        for (p, e), (q, _) in zip(evs, evs[1:]):
+            if e[2] < len(prog) and prog[e[2]][0] in ("num",) and prog[e[2]][1] == 0 and tab[tid][1] is None:
+                seen = {}
+                for x in trace[p + 1:q]:
+                    if x[0] != "s": continue
+                    b = x[1]; bp = tab[b][0]
+                    front = (x[2] == 0 and tab[b][1] is not None) or (x[2] > 0 and bp[x[2] - 1][0] == "again")
+                    if not front:
+                        seen[b] = seen.get(b, 0) + 1
+                        if seen[b] > 1: return "unfair | task %d ran twice while task %d was waiting in the ready deque" % (b, tid)
+    # 7. every runnable task is eventually run: at quiescence nothing that can still run is left behind
+    exited = any(e[0] == "s" and e[2] < len(tab[e[1]][0]) and tab[e[1]][0][e[2]] == ["exit"] and
+                 not (e[2] > 0 and tab[e[1]][0][e[2] - 1][0] == "again" and not tab[e[1]][0][e[2] - 1][2] and e[4] is not None and e[4][0] == "exc")
+                 for e in trace)
+    if o["quit"] and not exited and o["cycles"] < case["budget"]:
+        tabs = {"r": case["r"], "w": case["w"], "x": case["x"]}
+        def never(lst, key):
+            return all(f >= len(tabs[key]) or tabs[key][f] is None for f in (lst or []))
+        child_of = dict(((ptid, pidx), tid) for tid, k, ptid, pidx in o["subs"])
+        for tid, (prog, ptid, pidx) in tab.items():
+            evs = steps.get(tid, [])
+            if not evs: return "never-started | task %d never ran" % tid
+            _, last = evs[-1]; i = last[2]
+            if i == len(prog): continue
+            if i > 0 and prog[i - 1][0] == "again" and not prog[i - 1][2] and last[4] is not None and last[4][0] == "exc": continue
+            y = prog[i]
+            may_block = (y[0] in ("block", "raise", "exit") or y == ["sleep", None]
+                         or (y[0] == "select" and y[4] is None and never(y[1], "r") and never(y[2], "w") and never(y[3], "x"))
+                         or (y[0] == "recv" and y[2] is None and never([y[1]], "r") and never([y[1]], "x"))
+                         or (y[0] == "send" and y[3] is None and never([y[1]], "w") and never([y[1]], "x"))
+                         or (y[0] == "again" and (tid, i) in child_of and outcome(child_of[(tid, i)]) is None)
+                         or (ptid is not None and y[0] in ("num", "cancel")))          # plain yield in a sub-task = return (checked in 4)
+            if not may_block:
+                return "lost-wakeup:%s | task %d is still waiting on %s although nothing else can happen" % (y[0], tid, y)
+        for j, (delay, recurring, selfstop, false_at) in enumerate(case["timers"]):
+            fired = sum(1 for e in trace if e[0] == "f" and e[1] == ntop + j)
+            cancelled = any(y == ["cancel", j] for p in case["progs"] for y in p)
+            if not cancelled and fired == 0: return "timer:never | timer %d never fired" % j
+    # 8. isolation: replacing a top-level `raise` by `yield False` must not change anybody's trace
+    raised = [(tid, e[2]) for tid, evs in steps.items() if tab[tid][1] is None for _, e in evs
+              if e[2] < len(tab[tid][0]) and tab[tid][0][e[2]][0] == "raise"]
+    if raised and not case.get("_iso"):
+        c2 = dict(case); c2["_iso"] = True
+        ks = set(case["tasks"][tid] for tid, _ in raised)
+        c2["progs"] = [[(["block"] if (k in ks and y[0] == "raise") else y) for y in p] for k, p in enumerate(case["progs"])]
+        o2 = Run(chk.rc, c2).go()
+        for key in ("trace", "now", "ready", "hub", "incoming", "cycles"):
+            if o2[key] != o[key]:
+                return "isolation | a raising task changed the run of the others (%s differs when it blocks instead)" % key
+    return None
 
 
 CHECK = C06
